@@ -44,6 +44,12 @@ def run(ctx):
             pairs = br.setup_case(root, c)
             for src, _, _ in pairs:
                 os.setxattr(src, 'user.c18', b'v')
+            if i in (2, 3, 4) or rng.random() < 0.2:
+                # sources stamped BEFORE 1970 (old archives, clock-less devices): whatever the timestamp step makes of them, the flush
+                # that was asked for is still due
+                for src, _, _ in pairs:
+                    os.utime(src, ns=(-86400 * 400 * 10 ** 9 + 5, -86400 * 365 * 10 ** 9 - 123456789))
+                ctx.count('sources_stamped_before_1970')
             linked = set()
             if c.prior == 'absent' and rng.random() < 0.3:
                 # the destination NAME of some files already exists as a symbolic link to a regular file (an older layout of the
